@@ -197,6 +197,243 @@ pub fn exec_threads(case: &Case) -> Outcome {
     })
 }
 
+// ---- the node's own entry points, sequences per client, subscriptions that stay live ------------------
+
+/// One request of a client: `mode` 0 = QueryNode::query, 1 = QueryNode::query_stream (the
+/// subscription stays open until every client is done: its historical phase is what is
+/// compared), 2 = QueryNode::query_for_tenant under another tenant.
+#[derive(Clone, Debug, Serialize, Deserialize)]
+pub struct Step {
+    pub client: u8,
+    pub query: u8,
+    pub mode: u8,
+}
+
+#[derive(Clone, Debug, Serialize, Deserialize)]
+pub struct PlanCase {
+    pub data: Dataset,
+    pub queries: Vec<Query>,
+    pub plan: Vec<Step>,
+    pub adaptive: bool,
+    pub schedule: Vec<u16>,
+}
+
+type Chan = Arc<parking_lot::Mutex<Option<cardinalsin::ingester::BroadcastChannel>>>;
+
+async fn plan_node(env: &Env, adaptive: bool) -> (Arc<cardinalsin::query::QueryNode>, Chan) {
+    let chan = cardinalsin::ingester::BroadcastChannel::new(8);
+    let mut node = query_node(env, adaptive).await.expect("node");
+    node.connect_broadcast(chan.subscribe());
+    (Arc::new(node), Arc::new(parking_lot::Mutex::new(Some(chan))))
+}
+
+enum Pending {
+    Done(Result<Vec<String>, String>),
+    Live(tokio::sync::mpsc::Receiver<cardinalsin::Result<arrow_array::RecordBatch>>),
+}
+
+async fn start_step(node: &cardinalsin::query::QueryNode, sql: &str, mode: u8) -> Pending {
+    match mode % 3 {
+        1 => match node.query_stream(sql).await {
+            Ok(rx) => Pending::Live(rx),
+            Err(e) => Pending::Done(Err(format!("{:?}", e))),
+        },
+        2 => Pending::Done(node.query_for_tenant(sql, "tenant-b").await.map(|b| result_rows(&b)).map_err(|e| format!("{:?}", e))),
+        _ => Pending::Done(node.query(sql).await.map(|b| result_rows(&b)).map_err(|e| format!("{:?}", e))),
+    }
+}
+
+/// after the broadcast channel has been closed: what a subscription delivered
+async fn finish_step(p: Pending) -> Result<Vec<String>, String> {
+    match p {
+        Pending::Done(r) => r,
+        Pending::Live(mut rx) => {
+            let mut out = Vec::new();
+            while let Some(b) = rx.recv().await {
+                out.push(b.map_err(|e| format!("{:?}", e))?);
+            }
+            Ok(result_rows(&out))
+        }
+    }
+}
+
+async fn plan_solo(env: &Env, adaptive: bool, sql: &str, mode: u8) -> Result<Vec<String>, String> {
+    let (node, chan) = plan_node(env, adaptive).await;
+    let p = start_step(&node, sql, mode).await;
+    chan.lock().take();
+    finish_step(p).await
+}
+
+/// client tasks for a plan on one shared node; results[i] = answer of plan step i
+fn spawn_plan(case: &PlanCase, sqls: &[String], node: Arc<cardinalsin::query::QueryNode>, chan: Chan, results: Arc<parking_lot::Mutex<Vec<Option<Result<Vec<String>, String>>>>>) -> Vec<tokio::task::JoinHandle<()>> {
+    let clients: std::collections::BTreeSet<u8> = case.plan.iter().map(|s| s.client % 4).collect();
+    let barrier = Arc::new(tokio::sync::Barrier::new(clients.len()));
+    let mut handles = Vec::new();
+    for c in clients {
+        let steps: Vec<(usize, String, u8)> = case.plan.iter().enumerate().filter(|(_, s)| s.client % 4 == c).map(|(i, s)| (i, sqls[s.query as usize % sqls.len()].clone(), s.mode)).collect();
+        let (node, chan, results, barrier) = (node.clone(), chan.clone(), results.clone(), barrier.clone());
+        handles.push(tokio::spawn(QUERY_IDX.scope(c as u32, async move {
+            let mut pend = Vec::new();
+            for (i, sql, mode) in steps {
+                pend.push((i, start_step(&node, &sql, mode).await));
+            }
+            // every client has issued all its requests: the ingester side goes away, live phases end
+            barrier.wait().await;
+            chan.lock().take();
+            for (i, p) in pend {
+                let r = finish_step(p).await;
+                results.lock()[i] = Some(r);
+            }
+        })));
+    }
+    handles
+}
+
+fn judge_plan(case: &PlanCase, sqls: &[String], solo: &std::collections::BTreeMap<(usize, u8), Result<Vec<String>, String>>, got: &[Option<Result<Vec<String>, String>>], out: &mut Outcome) {
+    for (i, st) in case.plan.iter().enumerate() {
+        let qi = st.query as usize % sqls.len();
+        let s = &solo[&(qi, st.mode % 3)];
+        let g = match &got[i] {
+            Some(g) => g,
+            None => {
+                out.set_fail("query-task-died", format!("step {} produced no result: {}", i, take_last_panic().unwrap_or_default()));
+                return;
+            }
+        };
+        if g != s {
+            let kind = ["query", "subscription-historical", "query-for-tenant"][(st.mode % 3) as usize];
+            out.set_fail(
+                format!("concurrent-answer-differs-from-solo:{}", kind),
+                format!("step {} (client {}, {}): {}\n alone: {:?}\n among the other requests of the plan {:?}: {:?}", i, st.client % 4, kind, sqls[qi], s.as_ref().map(|v| v.len()).map_err(|e| e.clone()), case.plan, g.as_ref().map(|v| v.len()).map_err(|e| e.clone())),
+            );
+            return;
+        }
+    }
+}
+
+async fn plan_prepare(case: &PlanCase, out: &mut Outcome) -> Option<(Env, Vec<String>, std::collections::BTreeMap<(usize, u8), Result<Vec<String>, String>>)> {
+    let now = chrono::Utc::now().timestamp_nanos_opt().unwrap();
+    let sqls: Vec<String> = case.queries.iter().map(|q| to_sql(&case.data, now, false, q).0).collect();
+    let store: Arc<dyn object_store::ObjectStore> = Arc::new(object_store::memory::InMemory::new());
+    let env = match ingest(store, case.data.backend, &case.data.batches(now), case.data.schema()).await {
+        Ok(e) => e,
+        Err(e) => {
+            out.set_fail("ingest-failed", e);
+            return None;
+        }
+    };
+    let mut solo = std::collections::BTreeMap::new();
+    for st in &case.plan {
+        let qi = st.query as usize % sqls.len();
+        if !solo.contains_key(&(qi, st.mode % 3)) {
+            let r = plan_solo(&env, case.adaptive, &sqls[qi], st.mode).await;
+            solo.insert((qi, st.mode % 3), r);
+        }
+    }
+    let distinct = solo.values().map(|r| format!("{:?}", r)).collect::<std::collections::BTreeSet<_>>().len();
+    let clients: std::collections::BTreeSet<u8> = case.plan.iter().map(|s| s.client % 4).collect();
+    out.nontrivial = distinct >= 2 && case.plan.len() >= 2;
+    if case.plan.iter().any(|s| s.mode % 3 == 1) && case.plan.iter().any(|s| s.mode % 3 != 1) {
+        out.class("subscription-among-queries");
+    }
+    if clients.len() >= 2 {
+        out.class("several-clients");
+    }
+    // the same statement issued again after another one selected other chunks
+    for (i, a) in case.plan.iter().enumerate() {
+        if case.plan[..i].iter().any(|b| b.query as usize % sqls.len() == a.query as usize % sqls.len()) {
+            out.class("statement-repeated");
+            break;
+        }
+    }
+    Some((env, sqls, solo))
+}
+
+pub fn exec_plan_scheduled(case: &PlanCase) -> Outcome {
+    let rt = rt_paused();
+    let out = rt.block_on(async {
+        let mut out = Outcome::pass();
+        let (env, sqls, solo) = match plan_prepare(case, &mut out).await {
+            Some(x) => x,
+            None => return out,
+        };
+        let core = SimCore::new();
+        {
+            let core2 = core.clone();
+            cardinalsin::verif_hooks::set_pause_handler(Some(Arc::new(move |point: &'static str| {
+                let core3 = core2.clone();
+                let idx = QUERY_IDX.try_with(|i| *i).unwrap_or(99);
+                Box::pin(async move {
+                    if point.starts_with("engine:") && idx != 99 {
+                        let _ = core3.gated(ReqDesc { node: idx, op: OpKind::Pause, path: point.to_string(), detail: String::new() }, || async {}).await;
+                    }
+                })
+            })));
+        }
+        core.set_scheduled(true);
+        let (node, chan) = plan_node(&env, case.adaptive).await;
+        let results = Arc::new(parking_lot::Mutex::new(vec![None; case.plan.len()]));
+        let handles = spawn_plan(case, &sqls, node, chan, results.clone());
+        let run = drive_schedule(&core, &handles, &case.schedule, None, 4000).await;
+        out.count("pause_points_scheduled", run.scheduled);
+        if run.end != DriveEnd::Done {
+            handles.iter().for_each(|h| h.abort());
+            out.set_fail("queries-did-not-finish", format!("{:?}", run.end));
+            return out;
+        }
+        for h in handles {
+            let _ = h.await;
+        }
+        let got = results.lock().clone();
+        judge_plan(case, &sqls, &solo, &got, &mut out);
+        out
+    });
+    cardinalsin::verif_hooks::set_pause_handler(None);
+    out
+}
+
+/// Sampled: the same plans on an 8-worker runtime.
+pub fn exec_plan_threads(case: &PlanCase) -> Outcome {
+    cardinalsin::verif_hooks::set_pause_handler(None);
+    let rt = tokio::runtime::Builder::new_multi_thread().worker_threads(8).enable_all().build().unwrap();
+    rt.block_on(async {
+        let mut out = Outcome::pass();
+        let (env, sqls, solo) = match plan_prepare(case, &mut out).await {
+            Some(x) => x,
+            None => return out,
+        };
+        for _round in 0..10 {
+            let (node, chan) = plan_node(&env, case.adaptive).await;
+            let results = Arc::new(parking_lot::Mutex::new(vec![None; case.plan.len()]));
+            let handles = spawn_plan(case, &sqls, node, chan, results.clone());
+            for h in handles {
+                let _ = h.await;
+            }
+            let got = results.lock().clone();
+            judge_plan(case, &sqls, &solo, &got, &mut out);
+            if out.failure.is_some() {
+                return out;
+            }
+        }
+        out
+    })
+}
+
+fn plan_strategy(_t: Tier) -> BoxedStrategy<PlanCase> {
+    (
+        dataset(30).prop_map(|mut d| {
+            d.span_h = 5;
+            d
+        }),
+        prop::collection::vec(simple_query(), 2..4),
+        prop::collection::vec((0u8..3, 0u8..4, prop_oneof![4 => Just(0u8), 3 => Just(1u8), 1 => Just(2u8)]).prop_map(|(client, query, mode)| Step { client, query, mode }), 2..7),
+        any::<bool>(),
+        prop::collection::vec(any::<u16>(), 0..32),
+    )
+        .prop_map(|(data, queries, plan, adaptive, schedule)| PlanCase { data, queries, plan, adaptive, schedule })
+        .boxed()
+}
+
 fn simple_query() -> impl Strategy<Value = Query> {
     (any::<u16>(), any::<u16>(), prop_oneof![3 => Just(Rest::None), 1 => (0u8..4).prop_map(Rest::HostEq), 1 => (0u8..3).prop_map(Rest::MetricEq)], prop_oneof![2 => Just(Proj::Star), 1 => Just(Proj::CountStar), 1 => (0u8..5, 0u8..3).prop_map(|(f, group)| Proj::Agg { f, group })]).prop_map(|(a, b, rest, proj)| {
         let (lo, hi) = if a <= b { (a, b) } else { (b, a) };
@@ -217,12 +454,14 @@ pub fn def() -> PropDef {
     PropDef {
         id: "C10",
         level: "exploration",
-        rule: "datasets of 4-30 rows over six hours in 1-6 chunks; 2-4 concurrent queries (QueryNode::query, or the streaming executor's historical phase) with generated disjoint / nested / equal windows, label / metric predicates and projections / aggregates on one query node; scheduled: a generated schedule decides the order in which the tasks pass the pause point between table registration and statement planning (current_thread runtime, virtual clock); threads (sampled): the same queries started behind a barrier on an 8-worker runtime, 30 rounds. Oracle: each concurrent answer == the answer of the same query run alone on a fresh node. Non-trivial = at least two of the queries have different solo answers.",
+        rule: "datasets of 4-30 rows over six hours in 1-6 chunks; 2-4 concurrent queries (QueryNode::query, or the streaming executor's historical phase) with generated disjoint / nested / equal windows, label / metric predicates and projections / aggregates on one query node; scheduled: a generated schedule decides the order in which the tasks pass the pause point between table registration and statement planning (current_thread runtime, virtual clock); threads (sampled): the same queries started behind a barrier on an 8-worker runtime, 30 rounds. Oracle: each concurrent answer == the answer of the same query run alone on a fresh node. Non-trivial = at least two of the queries have different solo answers. node-plans: 1-3 clients each issuing a sequence of 1-6 requests through the node's own entry points - QueryNode::query, QueryNode::query_stream (the subscription stays open until every client is done; its historical phase is compared) and QueryNode::query_for_tenant under a second tenant, adaptive indexing on or off - over 2-3 statements, so statements are repeated after other requests selected other chunks and subscriptions are live while queries run; scheduled at the engine's pause points (and sampled on 8 threads, 10 rounds).",
         assumptions: &["the solo answer is the specification (its equality with a full scan is C04)", "real-thread interleavings are only sampled"],
         subs: || {
             vec![
                 Box::new(Sub::<Case> { name: "scheduled", cases: |t| t.scale(1_500, 8), strategy, exec: exec_scheduled }),
                 Box::new(Sub::<Case> { name: "threads", cases: |t| t.pick(24, 300), strategy, exec: exec_threads }),
+                Box::new(Sub::<PlanCase> { name: "node-plans", cases: |t| t.scale(1_500, 8), strategy: plan_strategy, exec: exec_plan_scheduled }),
+                Box::new(Sub::<PlanCase> { name: "node-plans-threads", cases: |t| t.pick(24, 300), strategy: plan_strategy, exec: exec_plan_threads }),
             ]
         },
     }
